@@ -9,7 +9,7 @@ from engine.lib import make_scheduler, rec_tuples
 # documented alphabet as tokens (regex on a symbolic str is inconclusive in CrossHair: the *structure* is solver-enumerated as
 # token indices and the string is concrete per path)
 TOK = ["-", "|", "#", "a", "b", "1", "12", "(", ")", ",", " ", "1.5"]
-LOOKUP = {"a": "A", 1: "one", 12: "twelve"}
+LOOKUP = {"a": "A", "b": 0, 1: None, 12: "twelve"}  # includes falsy mapped values
 ERR = Exception("marble-error")
 
 
@@ -202,7 +202,7 @@ def h_deliver(a, inst):
 ENCODED = ["reactivex/observable/marbles.py", "reactivex/testing/marbles.py"]
 BOUNDS = {"quick": "every string of 4 tokens (3 for the delivery harness) over the documented alphabet "
                    "['-', '|', '#', 'a', 'b', '1', '12', '(', ')', ',', ' ', '1.5'], timespan in [1,3], time shift in [0,2], "
-                   "raise_stopped on/off, a fixed lookup map; cold (from_marbles) and hot delivery on the virtual-time scheduler",
+                   "raise_stopped on/off, a fixed lookup map (including falsy mapped values 0 and None); cold (from_marbles) and hot delivery on the virtual-time scheduler",
           "thorough": "6 tokens (parse), 4 (delivery)"}
 ASSUMES = ["the string structure is enumerated by the solver as token indices (a symbolic str through `re` is inconclusive in CrossHair)",
            "ill-formed strings (unbalanced parentheses) are outside the claim: only 'no crash other than ValueError' is required of them",
